@@ -1,7 +1,7 @@
-\* simulation: random behaviours of the deep families (VFFamilies is SimFamilies or generated by the harness)
+\* simulation: random behaviours of the deep families (the harness runs one vocabulary per TLC process through a generated module MCSubstX)
 SPECIFICATION Spec
 CONSTANTS
-  Families <- VFFamilies
+  Families <- SimFamilies
   Mutant = "none"
 INVARIANT ShapeSound
 INVARIANT FvSound
